@@ -64,23 +64,23 @@ type Universe struct {
 	C    Consts
 	Seed int64
 
-	InstanceID uint64
-	Keys       []*ecdsa.PrivateKey // keyper i of every keyper set
-	Addrs      []common.Address
-	CfgIdx     []int64 // CfgIdx[e-1] keyper config index of abstract eon e
-	EonNo      []int64
-	SlotBase   uint64
-	BlockBase  int64
+	InstanceID    uint64
+	Keys          []*ecdsa.PrivateKey // keyper i of every keyper set
+	Addrs         []common.Address
+	CfgIdx        []int64 // CfgIdx[e-1] keyper config index of abstract eon e
+	EonNo         []int64
+	SlotBase      uint64
+	BlockBase     int64
 	SlotsPerEpoch uint64
-	GasUnit    uint64 // EncryptedGasLimit = GasLimit * GasUnit
-	GasLimit   uint64
-	MinGas     uint64
-	ValReg     uint64 // registered validator index
-	ValUnreg   uint64
+	GasUnit       uint64 // EncryptedGasLimit = GasLimit * GasUnit
+	GasLimit      uint64
+	MinGas        uint64
+	ValReg        uint64 // registered validator index
+	ValUnreg      uint64
 
 	// Pool[e-1][r] = the 52 byte identity preimage of rank r in eon e (prefix ++ sender)
-	Pool   []map[int][]byte
-	byHex  map[string]ID
+	Pool  []map[int][]byte
+	byHex map[string]ID
 }
 
 // NewUniverse derives all concrete values from the seed.
@@ -181,8 +181,8 @@ func SlotIdentity(slot uint64) []byte {
 	return b
 }
 
-func (u *Universe) Slot(s int) uint64    { return u.SlotBase + uint64(s) }
-func (u *Universe) Block(b int) int64    { return u.BlockBase + int64(b) }
+func (u *Universe) Slot(s int) uint64 { return u.SlotBase + uint64(s) }
+func (u *Universe) Block(b int) int64 { return u.BlockBase + int64(b) }
 func (u *Universe) TxIdentity(e, r int) []byte {
 	return u.Pool[e-1][r]
 }
